@@ -455,6 +455,9 @@ def evaluate(ctx, cases, label, plaquette_budget=None):
         for row, sc in zip(pos, scaled_ints(pos, S)):
             scaled_of[(float(row[0]), float(row[1]))] = tuple(sc)
         lat = mk(pos, edges, cr)
+        hs = res.extra.setdefault("size_histogram", {})
+        b = "V<=10" if len(pos) <= 10 else "V<=50" if len(pos) <= 50 else "V<=200" if len(pos) <= 200 else "V>200"
+        hs[b] = hs.get(b, 0) + 1
         P_in = "unset"
         faces = "unset"
         truthful = flags_truthful(pos, edges, cr)
